@@ -12,7 +12,8 @@ RULE = ('case = history over the global default configuration: set_default_confi
         'of {indent, width, ribbon_width, depth, max_seq_len, sort_dict_keys}, end string) with entry point in {pformat, '
         'pprint to a StringIO, pprint to a redirected sys.stdout, cpprint with colour off, cpprint with colour on (SGR '
         'stripped), pretty_repr of a registered type, PrettyPrinter(**explicit).pformat, PrettyPrinter(**explicit).pprint, '
-        'pformat / pprint with indent, width, depth passed positionally}. '
+        'pformat / pprint with indent, width, depth passed positionally, pretty_repr as the very first use of a fresh class whose '
+        'printer is registered by name}. '
         'Exhaustive: every single setting explicit-vs-default x every entry point after each single-setting '
         'set_default_config; random: Hypothesis histories of up to 10 ops. Model: a dict mirrors the defaults; reference '
         'text = pformat(value, **every effective setting passed explicitly); every entry point must produce exactly that '
@@ -33,7 +34,7 @@ DOMAIN = {
 }
 DEFAULTABLE = ['width', 'ribbon_width', 'depth', 'max_seq_len', 'sort_dict_keys']
 ENTRIES = ['pformat', 'pprint_stream', 'pprint_stdout', 'cpprint_off', 'cpprint_on', 'pretty_repr', 'PP.pformat', 'PP.pprint',
-           'pformat_positional', 'pprint_positional']
+           'pformat_positional', 'pprint_positional', 'pretty_repr_byname']
 VALUES = [
     ['dict', [[['str', 'b'], ['list', [['int', 1], ['int', 2], ['int', 3]]]], [['str', 'a'], ['tuple', [['str', 'x y'], ['none']]]], [['str', 'c'], ['int', 0]]]],
     ['list', [['list', [['list', [['int', 1], ['str', 'deep']]], ['int', 2]]], ['dict', [[['int', 2], ['int', 1]], [['int', 1], ['int', 2]]]], ['str', 'lorem ipsum dolor sit amet']]],
@@ -62,6 +63,24 @@ def _types():
             return pretty_call(ctx, CfgBox, value.v)
         _setup['cls'] = CfgBox
     return _setup['cls']
+
+
+_byname_counter = [0]
+
+
+def _fresh_byname_box(v):
+    from prettyprinter import register_pretty, pretty_call, pretty_repr
+    _byname_counter[0] += 1
+    name = 'ByName%d' % _byname_counter[0]
+    cls = type(name, (), {'__repr__': pretty_repr, '__init__': lambda self, v: setattr(self, 'v', v)})
+    cls.__module__ = 'ppv_cfg_byname'
+    cls.__qualname__ = 'ByNameBox'          # printed name must not depend on the counter
+    key = 'ppv_cfg_byname.ByNameBox'
+
+    @register_pretty(key)
+    def _p(value, ctx):
+        return pretty_call(ctx, 'ppv_cfg_byname.ByNameBox', value.v)
+    return cls(v)
 
 
 def enumerate_cases(tier):
@@ -184,6 +203,15 @@ def oracle(case):
                 if entry == 'pretty_repr':
                     value = CfgBox(value)
                     explicit = {}
+                byname_first = None
+                if entry == 'pretty_repr_byname':
+                    # a fresh class whose printer is registered by name only; repr() is its very first use
+                    value = _fresh_byname_box(value)
+                    explicit = {}
+                    try:
+                        byname_first = repr(value)
+                    except Exception as e:
+                        return core.viol('entry-point-raised', 'pretty_repr (by-name registered type, first use) raised %r' % (e,))
                 effective = dict(model)
                 effective.update(explicit)
                 try:
@@ -191,7 +219,10 @@ def oracle(case):
                 except Exception as e:
                     return core.viol('reference-print-raised', '%r with %r' % (e, effective))
                 try:
-                    if entry == 'pretty_repr':
+                    if entry == 'pretty_repr_byname':
+                        got = byname_first
+                        ref_cmp = ref
+                    elif entry == 'pretty_repr':
                         got = repr(value)
                         ref_cmp = ref
                     else:
@@ -203,7 +234,7 @@ def oracle(case):
                 if got != ref_cmp:
                     return core.viol('entry-points-disagree', '%s with explicit %r under defaults %r gave\n%r\nreference\n%r' % (
                         entry, explicit, model, got[:500], ref_cmp[:500]))
-                if changed and (entry == 'pretty_repr' or (explicit and len(explicit) < len(DOMAIN))):
+                if changed and (entry in ('pretty_repr', 'pretty_repr_byname') or (explicit and len(explicit) < len(DOMAIN))):
                     eff_stock = dict(stock)
                     eff_stock.update(explicit)
                     if pp.pformat(value, **eff_stock) != ref:
